@@ -1054,6 +1054,13 @@ def assemble(template_path, repo, cfgset=("debug_assertions",), variant="main"):
             for b in blk:
                 if b.strip().startswith("r3 "):
                     register_r3(repo, b.strip()[3:], log)
+                elif b.strip().startswith("r8 "):
+                    # //@ r8 <closure-free std call chain> => <shim call>   (rule R8; token-sequence match)
+                    lhs, rhs = b.strip()[3:].split("=>")
+                    seq = [t.text for t in tokenize(lhs)]
+                    if "|" in seq or "||" in seq:
+                        raise Lost("R8 may not abstract a chain that contains a closure: %s" % lhs)
+                    SEQ_REWRITES.append(("R8-std-chain-shim", seq, rhs.strip()))
                 else:
                     blk2.append(b)
             blk = blk2
